@@ -64,8 +64,7 @@ static inline bool post_Start(Dma_Channel old, Dma_Channel now)
 /* AHBM channel lookup: the lowest AHBM channel whose DMA mask contains the DMA channel, else 0 */
 static inline u16 spec_ahbm_channel_for(const Ahbm *a, u16 dma_channel)
 {
-    for (u16 c = 0; c < 3; c++) if ((a->channels.e[c].dma_channel >> dma_channel) & 1) return c;
-    return 0;
+    return ((a->channels.e[0].dma_channel >> dma_channel) & 1) ? 0 : ((a->channels.e[1].dma_channel >> dma_channel) & 1) ? 1 : ((a->channels.e[2].dma_channel >> dma_channel) & 1) ? 2 : 0;
 }
 static inline u16 spec_ahbm_channel_for_v(Ahbm a, u16 dma_channel) { return spec_ahbm_channel_for(&a, dma_channel); }
 static inline u32 spec_burst(Ahbm_BurstSize b) { return b == Ahbm_BurstSize_X4 ? 4 : b == Ahbm_BurstSize_X8 ? 8 : 1; }
